@@ -1,5 +1,6 @@
 """C14 -- software versions are ordered numerically, component by component."""
 import ast
+import itertools
 
 from sa.core import AnalysisError, unparse, walk_no_nested, stmt_text, call_name, func_id, bind_args
 from sa.logic import path_condition
@@ -139,7 +140,31 @@ def run(repo, rep, tier):
 
     # ---- rule 2: patch ordering only after numeric equality ------------------------------------------------------------------
     cv = repo.func('software', 'Software.compare_version')
-    rep.floor('patch', 'lexical patch comparisons', len(lexical_patch), 2)
+    # compare_version (with Utils.version_key) interpreted on 20 x 20 release numbers for two products and on 18 patched pairs (props/_version.py): the sign agrees
+    # with numeric component-wise comparison (multi-digit components included), the judgement is antisymmetric, and the product patch rules hold
+    from props import _version as _V
+    badn, badp = [], []
+    signs = {}
+    for prod_ in ('OpenSSH', 'LibSSH'):
+        for a_, b_ in itertools.product(_V.NUMBERS, repeat=2):
+            g_ = _V.compare(repo, prod_, a_, None, b_)
+            rep.evals()
+            signs[(prod_, a_, b_)] = g_
+            w_ = (_V.vkey(a_) > _V.vkey(b_)) - (_V.vkey(a_) < _V.vkey(b_))
+            if g_ != w_:
+                badn.append('%s %s compared with %s gives %+d, numerically %+d' % (prod_, a_, b_, g_, w_))
+    for (prod_, a_, b_), g_ in signs.items():
+        if signs[(prod_, b_, a_)] != -g_:
+            badn.append('%s: %s vs %s gives %+d but %s vs %s gives %+d (not antisymmetric)' % (prod_, a_, b_, g_, b_, a_, signs[(prod_, b_, a_)]))
+    rep.check('numeric', 'older / same / newer agrees with numeric component-wise comparison and is antisymmetric (%d ordered pairs)' % len(signs), not badn, cv,
+              'version ordering is not numeric -- %s [%d pairs deviate]' % (badn[0] if badn else '', len(badn)), stmt='numeric version order model', sample={'rule': 'numeric', 'pairs': len(signs)})
+    for prod_, v_, p_, o_ in _V.PATCHED:
+        g_, w_ = _V.compare(repo, prod_, v_, p_, o_), _V.expected(prod_, v_, p_, o_)
+        rep.evals()
+        if g_ != w_:
+            badp.append('%s %s%s compared with %s gives %+d, the patch rules give %+d' % (prod_, v_, p_ or '', o_, g_, w_))
+    rep.check('patch', 'product patch rules: OpenSSH pN (p1 == release), Dropbear testN before the release, suffix order otherwise -- only after numeric equality (%d pairs)' % len(_V.PATCHED), not badp, cv,
+              'patch-level ordering changed -- %s' % (badp[0] if badp else ''), stmt='patch rules model')
     # orientation and "numeric part first", by interpretation over the three orderings of the two numeric keys (the versions are only
     # touched through comparisons of their keys): when self's key is smaller every path returns -1, when larger every path returns 1 --
     # in particular no path reaches a patch comparison unless the keys are equal.  Helpers are interpreted in place.
@@ -192,7 +217,7 @@ def run(repo, rep, tier):
     from sa.regex_automata import Lang, split_at_group, inclusion
     splits = [n for n in walk_no_nested(cv) if isinstance(n, ast.Call) and unparse(n.func) in ('re.match', 're.search', 're.fullmatch') and len(n.args) == 2 and isinstance(n.args[0], ast.Constant)
               and isinstance(n.args[0].value, str) and unparse(n.args[1]) == 'other']
-    rep.floor('patch', 'pattern splitting the other version into number and patch', len(splits), 1)
+    # (a compare_version that splits the version differently is decided by the model above; the pattern rules below apply when the split is a literal pattern)
     for sp in splits:
         pre, grp, post = split_at_group(sp.args[0].value, 1)
         ok1, cex1 = inclusion(Lang(r'\d+(\.\d+)*'), grp)
@@ -237,7 +262,9 @@ def run(repo, rep, tier):
             storage = {'P': [prev, prev, prev, prev]}
             env = {'self': Opaque(), 'self.__storage': storage, 'pos': pos, 'ssh_versions.items()': [('P', new_v)], 'self[ssh_product][pos]': prev, 'self[ssh_product]': storage['P']}
             try:
-                finals = Interp(call_hook=thook, resolver=tresolver).run([upd_loops[0]], env)
+                # locals computed from `pos` in front of the loop (a hoisted `pos % 2 == 0`) are part of the slot decision
+                lead = [st_ for st_ in tu.body[:tu.body.index(upd_loops[0])] if isinstance(st_, (ast.Assign, ast.AnnAssign)) and not any(isinstance(x, ast.Call) for x in ast.walk(st_))]
+                finals = Interp(call_hook=thook, resolver=tresolver).run(lead + [upd_loops[0]], env)
             except Unknown as ex:
                 raise AnalysisError('Timeframe._update cannot be interpreted over key orderings: %s' % ex)
             if len(finals) != 1 or finals[0].get('<forks>'):
@@ -250,10 +277,6 @@ def run(repo, rep, tier):
     rep.check('timeframe', 'Timeframe slots: "from" keeps the newest, "till" the oldest version, by numeric order (16 cases)', not tbad, upd_loops[0],
               'Timeframe._update: slot %s holding a version that is %s than the incoming one is %s' % ((tbad[0][0], tbad[0][1].replace('older', 'numerically older').replace('newer', 'numerically newer'), 'replaced' if tbad[0][2] else 'kept') if tbad else ('', '', '')),
               stmt='timeframe slot orientation', sample={'rule': 'timeframe', 'cases': 16})
-    txt = unparse(cv)
-    for need, what in (("re.match('^test\\\\d.*$', opatch)", 'Dropbear test-release normalisation'), ("re.match('^p(\\\\d).*', opatch)", 'OpenSSH pN normalisation'), ("spatch == '' and opatch == '1' or (spatch == '1' and opatch == '')", 'OpenSSH p1 == release')):
-        rep.check('patch', 'product-specific patch rule present: %s' % what, need in txt, cv, 'patch rule missing: %s' % what)
-
     # ---- rule 3: consumers ----------------------------------------------------------------------------------------------------
     callers = sorted(func_id(a) for a, s, k in cg.callers(cv))
     gr = repo.func('algorithms', 'Algorithms.get_recommendations')
